@@ -8,11 +8,17 @@ use serde::{Deserialize, Serialize};
 use std::mem::MaybeUninit;
 
 #[derive(Clone, Debug, Serialize, Deserialize)]
-pub enum Op { NewPrivate(u64), Generate, NewPayload(u64), Clone(u16), Drop(u16), MoveToHeap(u16), ClonePublicPart(u16), DropWhileUnwinding(u16) }
+pub enum Op { NewPrivate(u64), Generate, NewPayload(u64), Clone(u16), Drop(u16), MoveToHeap(u16), ClonePublicPart(u16), DropWhileUnwinding(u16), CloneFrom(u16, u16) }
 #[derive(Clone, Debug, Serialize, Deserialize)]
 pub struct Program { pub ops: Vec<Op>, pub final_order: Vec<u16> }
 
-enum Held { PrivInline(usize), PrivBoxed(Box<MaybeUninit<PrivateKey>>), PayInline(usize), PayBoxed(Box<MaybeUninit<PayloadKey>>) }
+/// A payload key behind a few bytes of other data: the key sits at an odd offset inside its heap block.
+#[repr(C)]
+struct Tagged { tag: [u8; 5], key: MaybeUninit<PayloadKey> }
+enum Held { PrivInline(usize), PrivBoxed(Box<MaybeUninit<PrivateKey>>), PayInline(usize), PayBoxed(Box<MaybeUninit<PayloadKey>>), PayTagged(Box<Tagged>) }
+/// Payload keys held inline live in a byte arena at offsets i*40 + i%8: every residue modulo 8 occurs (PayloadKey has alignment 1).
+const PAY_STRIDE: usize = 40;
+fn pay_slot(base: *mut u8, j: usize) -> *mut PayloadKey { unsafe { base.add(j * PAY_STRIDE + j % 8) as *mut PayloadKey } }
 const ARENA: usize = 40;
 
 /// Key material: never all-zero; one key in three carries zero bytes at generated positions (a wipe that
@@ -57,16 +63,17 @@ fn drop_unwinding<T>(b: Box<T>, key_ptr: impl Fn(&T) -> *const u8, what: &str, o
 pub fn check(prog: &Program) -> CheckResult {
     alloc::watch_clear();
     let mut priv_arena: [MaybeUninit<PrivateKey>; ARENA] = unsafe { MaybeUninit::uninit().assume_init() };
-    let mut pay_arena: [MaybeUninit<PayloadKey>; ARENA] = unsafe { MaybeUninit::uninit().assume_init() };
+    let mut pay_bytes = [0u8; ARENA * PAY_STRIDE + 8]; let pay_arena: *mut u8 = pay_bytes.as_mut_ptr();
     let (mut np, mut ny) = (0usize, 0usize);
     let mut held: Vec<Option<(Held, &'static str)>> = Vec::new();
     let mut clone_dropped = false; let mut kinds = std::collections::BTreeSet::new();
     let mut result: Result<(), String> = Ok(());
-    let drop_one = |h: Held, origin: &'static str, priv_arena: &mut [MaybeUninit<PrivateKey>; ARENA], pay_arena: &mut [MaybeUninit<PayloadKey>; ARENA], kinds: &mut std::collections::BTreeSet<String>| -> Result<(), String> {
+    let drop_one = |h: Held, origin: &'static str, priv_arena: &mut [MaybeUninit<PrivateKey>; ARENA], pay_arena: *mut u8, kinds: &mut std::collections::BTreeSet<String>| -> Result<(), String> {
         unsafe { match h {
             Held::PrivInline(i) => { let p = priv_arena[i].as_mut_ptr(); let k = (*p).as_bytes().as_ptr(); kinds.insert(format!("private/arena/{}", drop_checked(p, k, "PrivateKey", origin)?)); }
             Held::PrivBoxed(mut b) => { let p = b.as_mut_ptr(); let k = (*p).as_bytes().as_ptr(); kinds.insert(format!("private/box/{}", drop_checked(p, k, "PrivateKey", origin)?)); }
-            Held::PayInline(i) => { let p = pay_arena[i].as_mut_ptr(); let k = (*p).as_bytes().as_ptr(); kinds.insert(format!("payload/arena/{}", drop_checked(p, k, "PayloadKey", origin)?)); }
+            Held::PayInline(i) => { let p = pay_slot(pay_arena, i); let k = (*p).as_bytes().as_ptr(); kinds.insert(format!("payload/arena@{}/{}", (p as usize) % 8, drop_checked(p, k, "PayloadKey", origin)?)); }
+            Held::PayTagged(mut b) => { let p = b.key.as_mut_ptr(); let k = (*p).as_bytes().as_ptr(); kinds.insert(format!("payload/tagged-box@{}/{}", (p as usize) % 8, drop_checked(p, k, "PayloadKey", origin)?)); }
             Held::PayBoxed(mut b) => { let p = b.as_mut_ptr(); let k = (*p).as_bytes().as_ptr(); kinds.insert(format!("payload/box/{}", drop_checked(p, k, "PayloadKey", origin)?)); }
         } }
         Ok(())
@@ -78,47 +85,64 @@ pub fn check(prog: &Program) -> CheckResult {
         match op {
             Op::NewPrivate(s) => if np < ARENA { priv_arena[np].write(PrivateKey::try_from(&nonzero_key(*s)[..]).unwrap()); held.push(Some((Held::PrivInline(np), "from bytes"))); np += 1; },
             Op::Generate => if np < ARENA { priv_arena[np].write(PrivateKey::generate()); held.push(Some((Held::PrivInline(np), "generated"))); np += 1; },
-            Op::NewPayload(s) => if ny < ARENA { pay_arena[ny].write(PayloadKey::new(&nonzero_key(*s))); held.push(Some((Held::PayInline(ny), "from bytes"))); ny += 1; },
+            Op::NewPayload(s) => if ny < ARENA { unsafe { std::ptr::write(pay_slot(pay_arena, ny), PayloadKey::new(&nonzero_key(*s))); } held.push(Some((Held::PayInline(ny), "from bytes"))); ny += 1; },
             Op::Clone(x) => if let Some(i) = sel(*x) { unsafe { match &held[i].as_ref().unwrap().0 {
                 Held::PrivInline(j) => if np < ARENA { let c = (*priv_arena[*j].as_ptr()).clone(); priv_arena[np].write(c); held.push(Some((Held::PrivInline(np), "clone"))); np += 1; },
                 Held::PrivBoxed(b) => if np < ARENA { let c = (*b.as_ptr()).clone(); priv_arena[np].write(c); held.push(Some((Held::PrivInline(np), "clone"))); np += 1; },
-                Held::PayInline(j) => if ny < ARENA { let c = (*pay_arena[*j].as_ptr()).clone(); pay_arena[ny].write(c); held.push(Some((Held::PayInline(ny), "clone"))); ny += 1; },
-                Held::PayBoxed(b) => if ny < ARENA { let c = (*b.as_ptr()).clone(); pay_arena[ny].write(c); held.push(Some((Held::PayInline(ny), "clone"))); ny += 1; },
+                Held::PayInline(j) => if ny < ARENA { let c = (*pay_slot(pay_arena, *j)).clone(); std::ptr::write(pay_slot(pay_arena, ny), c); held.push(Some((Held::PayInline(ny), "clone"))); ny += 1; },
+                Held::PayBoxed(b) => if ny < ARENA { let c = (*b.as_ptr()).clone(); std::ptr::write(pay_slot(pay_arena, ny), c); held.push(Some((Held::PayInline(ny), "clone"))); ny += 1; },
+                Held::PayTagged(b) => if ny < ARENA { let c = (*b.key.as_ptr()).clone(); std::ptr::write(pay_slot(pay_arena, ny), c); held.push(Some((Held::PayInline(ny), "clone"))); ny += 1; },
             } } },
             Op::ClonePublicPart(x) => if let Some(i) = sel(*x) { unsafe { if let Held::PrivInline(j) = &held[i].as_ref().unwrap().0 { let _ = (*priv_arena[*j].as_ptr()).to_public(); } } },
             Op::MoveToHeap(x) => if let Some(i) = sel(*x) { let (h, o) = held[i].take().unwrap(); unsafe { held[i] = Some((match h {
                 Held::PrivInline(j) => { let v = std::ptr::read(priv_arena[j].as_ptr()); std::ptr::write_bytes(priv_arena[j].as_mut_ptr() as *mut u8, 0, std::mem::size_of::<PrivateKey>()); Held::PrivBoxed(Box::new(MaybeUninit::new(v))) }
-                Held::PayInline(j) => { let v = std::ptr::read(pay_arena[j].as_ptr()); std::ptr::write_bytes(pay_arena[j].as_mut_ptr() as *mut u8, 0, std::mem::size_of::<PayloadKey>()); Held::PayBoxed(Box::new(MaybeUninit::new(v))) }
+                Held::PayInline(j) => { let v = std::ptr::read(pay_slot(pay_arena, j)); std::ptr::write_bytes(pay_slot(pay_arena, j) as *mut u8, 0, std::mem::size_of::<PayloadKey>()); if j % 2 == 0 { Held::PayBoxed(Box::new(MaybeUninit::new(v))) } else { Held::PayTagged(Box::new(Tagged { tag: [1, 2, 3, 4, 5], key: MaybeUninit::new(v) })) } }
                 other => other }, o)); } },
+            Op::CloneFrom(x, y) => if let (Some(i), Some(j)) = (sel(*x), sel(*y)) { if i != j { unsafe {
+                // a.clone_from(&b): whatever storage the old value of `a` gives up must have been erased first
+                let src_priv: Option<*const PrivateKey> = match &held[j].as_ref().unwrap().0 { Held::PrivInline(k) => Some(priv_arena[*k].as_ptr()), Held::PrivBoxed(b) => Some(b.as_ptr()), _ => None };
+                let src_pay: Option<*const PayloadKey> = match &held[j].as_ref().unwrap().0 { Held::PayInline(k) => Some(pay_slot(pay_arena, *k) as *const PayloadKey), Held::PayBoxed(b) => Some(b.as_ptr()), Held::PayTagged(b) => Some(b.key.as_ptr()), _ => None };
+                let dst_priv: Option<*mut PrivateKey> = match &mut held[i].as_mut().unwrap().0 { Held::PrivInline(k) => Some(priv_arena[*k].as_mut_ptr()), Held::PrivBoxed(b) => Some(b.as_mut_ptr()), _ => None };
+                let dst_pay: Option<*mut PayloadKey> = match &mut held[i].as_mut().unwrap().0 { Held::PayInline(k) => Some(pay_slot(pay_arena, *k)), Held::PayBoxed(b) => Some(b.as_mut_ptr()), Held::PayTagged(b) => Some(b.key.as_mut_ptr()), _ => None };
+                if let (Some(d), Some(s)) = (dst_priv, src_priv) {
+                    let old = (*d).as_bytes().as_ptr() as usize; let slot = alloc::watch(old, 32);
+                    (*d).clone_from(&*s);
+                    if let Some(sl) = slot { let st = alloc::watch_state(sl); alloc::watch_release(sl);
+                        if st == alloc::W_NONZERO { result = Err("PrivateKey::clone_from released the storage of the key it replaced while that storage still held the secret bytes".into()); }
+                        kinds.insert(format!("clone_from/private/{}", match st { alloc::W_ZERO => "old-erased", alloc::W_NONZERO => "old-leaked", _ => "in-place" })); }
+                    if (*d).as_bytes() != (*s).as_bytes() { result = Err("harness: clone_from did not copy the key".into()); }
+                } else if let (Some(d), Some(s)) = (dst_pay, src_pay) { (*d).clone_from(&*s); kinds.insert("clone_from/payload/in-place".into()); }
+            } } },
             Op::DropWhileUnwinding(x) => if let Some(i) = sel(*x) {
                 // the value is owned by a frame that panics: its destructor runs during unwinding
                 let (h, o) = held[i].take().unwrap(); if o == "clone" { clone_dropped = true; }
                 let outcome: Result<&'static str, String> = unsafe { match h {
                     Held::PrivInline(j) => { let v = std::ptr::read(priv_arena[j].as_ptr()); std::ptr::write_bytes(priv_arena[j].as_mut_ptr() as *mut u8, 0, std::mem::size_of::<PrivateKey>()); drop_unwinding(Box::new(v), |b| b.as_bytes().as_ptr(), "PrivateKey", o) }
                     Held::PrivBoxed(b) => { let v = b.assume_init_read(); drop_unwinding(Box::new(v), |b| b.as_bytes().as_ptr(), "PrivateKey", o) }
-                    Held::PayInline(j) => { let v = std::ptr::read(pay_arena[j].as_ptr()); std::ptr::write_bytes(pay_arena[j].as_mut_ptr() as *mut u8, 0, std::mem::size_of::<PayloadKey>()); drop_unwinding(Box::new(v), |b| b.as_bytes().as_ptr(), "PayloadKey", o) }
+                    Held::PayInline(j) => { let v = std::ptr::read(pay_slot(pay_arena, j)); std::ptr::write_bytes(pay_slot(pay_arena, j) as *mut u8, 0, std::mem::size_of::<PayloadKey>()); drop_unwinding(Box::new(v), |b| b.as_bytes().as_ptr(), "PayloadKey", o) }
                     Held::PayBoxed(b) => { let v = b.assume_init_read(); drop_unwinding(Box::new(v), |b| b.as_bytes().as_ptr(), "PayloadKey", o) }
+                    Held::PayTagged(b) => { let v = std::ptr::read(b.key.as_ptr()); drop_unwinding(Box::new((7u8, v)), |b| b.1.as_bytes().as_ptr(), "PayloadKey", o) }
                 } };
                 match outcome { Ok(k) => { kinds.insert(format!("unwinding/{}", k)); } Err(m) => result = Err(m) }
             },
-            Op::Drop(x) => if let Some(i) = sel(*x) { let (h, o) = held[i].take().unwrap(); if o == "clone" || held.iter().flatten().any(|(_, oo)| *oo == "clone") { clone_dropped = true; } result = drop_one(h, o, &mut priv_arena, &mut pay_arena, &mut kinds); },
+            Op::Drop(x) => if let Some(i) = sel(*x) { let (h, o) = held[i].take().unwrap(); if o == "clone" || held.iter().flatten().any(|(_, oo)| *oo == "clone") { clone_dropped = true; } result = drop_one(h, o, &mut priv_arena, pay_arena, &mut kinds); },
         }
     }
     // close: drop what is left, in the generated order (always, so nothing leaks even after a failure)
     let mut order: Vec<usize> = (0..held.len()).collect();
     for (k, x) in prog.final_order.iter().enumerate() { if !order.is_empty() { let a = k % order.len(); let b = crate::core::pick(*x, order.len()); order.swap(a, b); } }
-    for i in order { if let Some((h, o)) = held[i].take() { if o == "clone" { clone_dropped = true; } let r = drop_one(h, o, &mut priv_arena, &mut pay_arena, &mut kinds); if result.is_ok() { result = r; } } }
+    for i in order { if let Some((h, o)) = held[i].take() { if o == "clone" { clone_dropped = true; } let r = drop_one(h, o, &mut priv_arena, pay_arena, &mut kinds); if result.is_ok() { result = r; } } }
     result?;
     ok(clone_dropped, kinds.into_iter().collect::<Vec<_>>().join(","))
 }
 
 pub fn strat() -> impl Strategy<Value = Program> {
-    let op = prop_oneof![2 => any::<u64>().prop_map(Op::NewPrivate), 1 => Just(Op::Generate), 2 => any::<u64>().prop_map(Op::NewPayload), 4 => any::<u16>().prop_map(Op::Clone), 3 => any::<u16>().prop_map(Op::Drop), 2 => any::<u16>().prop_map(Op::MoveToHeap), 1 => any::<u16>().prop_map(Op::ClonePublicPart), 1 => any::<u16>().prop_map(Op::DropWhileUnwinding)];
+    let op = prop_oneof![2 => any::<u64>().prop_map(Op::NewPrivate), 1 => Just(Op::Generate), 2 => any::<u64>().prop_map(Op::NewPayload), 4 => any::<u16>().prop_map(Op::Clone), 3 => any::<u16>().prop_map(Op::Drop), 2 => any::<u16>().prop_map(Op::MoveToHeap), 1 => any::<u16>().prop_map(Op::ClonePublicPart), 1 => any::<u16>().prop_map(Op::DropWhileUnwinding), 2 => (any::<u16>(), any::<u16>()).prop_map(|(a, b)| Op::CloneFrom(a, b))];
     (proptest::collection::vec(op, 1..30), proptest::collection::vec(any::<u16>(), 0..12)).prop_map(|(ops, final_order)| Program { ops, final_order })
 }
 
 pub fn run(ctx: &Ctx) {
-    set_rule("C20", "programs of 1..30 operations over a table of key containers - PrivateKey from bytes, PrivateKey::generate, PayloadKey::new, clone of any live value, drop of any live value, move into a Box - closed by dropping the rest in a generated order. At every drop the storage owned at that moment is inspected: a separate heap block through the allocator (inside dealloc, before the block is returned), bytes stored inline by reading the slot back after drop_in_place; both for both types, so the verdict does not depend on where a type keeps its bytes. Non-trivial = a clone is dropped before or after its original; distinct by hash of the program");
+    set_rule("C20", "programs of 1..30 operations over a table of key containers - PrivateKey from bytes, PrivateKey::generate, PayloadKey::new, clone of any live value, `clone_from` between live values, drop of any live value, drop while the owning frame unwinds from a panic, move into a Box (payload keys also into a box behind 5 bytes of other data, and inline at every address residue modulo 8) - closed by dropping the rest in a generated order. At every drop the storage owned at that moment is inspected: a separate heap block through the allocator (inside dealloc, before the block is returned), bytes stored inline by reading the slot back after drop_in_place; both for both types, so the verdict does not depend on where a type keeps its bytes. Non-trivial = a clone is dropped before or after its original; distinct by hash of the program");
     ctx.assume("only storage owned by the value at drop time is inspected; copies the compiler leaves behind when a value is moved are outside what a destructor controls");
     ctx.pbt("clone_drop_programs", ctx.n(600_000, 6_000_000), strat, check);
     // fixed minimal programs: each constructor, dropped directly and via a clone
@@ -129,6 +153,8 @@ pub fn run(ctx: &Ctx) {
         Program { ops: vec![Op::NewPrivate(3), Op::Clone(0), Op::DropWhileUnwinding(0), Op::DropWhileUnwinding(0)], final_order: vec![] },
         Program { ops: vec![Op::NewPayload(6), Op::Clone(0), Op::DropWhileUnwinding(0), Op::DropWhileUnwinding(0)], final_order: vec![] },
         Program { ops: vec![Op::NewPrivate(9), Op::NewPrivate(12), Op::NewPrivate(15), Op::NewPayload(9), Op::NewPayload(18)], final_order: vec![] },
+        Program { ops: vec![Op::NewPrivate(1), Op::NewPrivate(2), Op::CloneFrom(0, 65535), Op::CloneFrom(65535, 0)], final_order: vec![] },
+        Program { ops: (0..9).map(|i| Op::NewPayload(i + 1)).chain((0..9).map(|i| Op::MoveToHeap((i * 7000) as u16))).collect(), final_order: vec![] },
     ];
     ctx.sse_vec("constructors_fixed", "each constructor x {dropped directly, cloned then dropped in both orders, boxed}", fixed, check);
 }
